@@ -26,8 +26,10 @@ fn check_day(ctx: &Ctx, civ: &Civil, ord: usize, first_term_day: usize, loc: &mu
     let first = ld.get_day() == 1;
     (ld.get_sixty_cycle().get_name(), sd.get_week().get_index(), JulianDay::from_julian_day(JD0 + ord as f64).get_week().get_index(), ld.get_week().get_index(), first)
   });
+  let mut start_bad = false;
   match r {
     Ok((p, w1, w2, w3, first)) => {
+      start_bad = p != want_p || w3 != want_w;
       if first || d.2 == 1 || (d.0 == 1582 && d.1 == 10) {
         loc.nontrivial += 1;
       }
@@ -38,7 +40,10 @@ fn check_day(ctx: &Ctx, civ: &Civil, ord: usize, first_term_day: usize, loc: &mu
         ctx.violation("weekday", fmt_ymd(d), format!("SolarDay::get_week={} JulianDay::get_week={} LunarDay::get_week={}, model (JDN {} + 1) mod 7 = {}", w1, w2, w3, jdn, want_w), rp.clone());
       }
     }
-    Err(m) => ctx.violation("pillar_lunar", fmt_ymd(d), format!("panics: {}", m), rp.clone()),
+    Err(m) => {
+      start_bad = true;
+      ctx.violation("pillar_lunar", fmt_ymd(d), format!("panics: {}", m), rp.clone())
+    }
   }
   if ord >= first_term_day {
     let r = guard(|| mk(d).get_sixty_cycle_day().get_sixty_cycle().get_name());
@@ -69,21 +74,35 @@ fn check_day(ctx: &Ctx, civ: &Civil, ord: usize, first_term_day: usize, loc: &mu
     loc.transitions += 2;
     let r = guard(|| {
       let sd = mk(d);
-      // a lunar day whose views are filled, stepped back one day and forward again: both views of the result
+      // a lunar day whose views are filled, stepped one day forward (and, after the first year, one day back): both views
+      // of the stepped value must be those of the neighbouring civil day
       let ld = sd.get_lunar_day();
       let _ = ld.get_sixty_cycle_day();
       let _ = ld.get_solar_day();
-      // (not in the first year: the sexagenary-day view of the day before the first term day needs a term of 1 BC)
-      let p = if ord > 400 { ld.next(-1) } else { ld.next(1) };
-      let _ = p.get_sixty_cycle_day();
-      let n = if ord > 400 { p.next(1) } else { p.next(-1) };
-      let stepped = if n.get_sixty_cycle_day().get_sixty_cycle().get_name() == n.get_sixty_cycle().get_name() && ymd_of(&n.get_solar_day()) == ymd_of(&sd) { n.get_sixty_cycle().get_name() } else { format!("{} / {} on {}", n.get_sixty_cycle_day().get_sixty_cycle().get_name(), n.get_sixty_cycle().get_name(), n.get_solar_day()) };
-      (SixtyCycleDay::from_solar_day(sd).get_sixty_cycle().get_name(), sd.get_lunar_day().get_sixty_cycle_day().get_sixty_cycle().get_name(), ymd_of(&sd.get_sixty_cycle_day().get_solar_day()), stepped)
+      let mut stepped = String::new();
+      let mut stepped_to = d;
+      // (not backwards in the first year: the sexagenary-day view of the day before the first term day needs a term of 1 BC)
+      for dn in if ord > 400 { vec![1i64, -1] } else { vec![1i64] } {
+        let o2 = ord as i64 + dn;
+        if o2 < 0 || o2 as usize >= civ.len() {
+          continue;
+        }
+        let n = ld.next(dn as isize);
+        let wp = pillar_name(day_pillar(civ.jdn(o2 as usize)));
+        let (v1, v2, sd2) = (n.get_sixty_cycle_day().get_sixty_cycle().get_name(), n.get_sixty_cycle().get_name(), ymd_of(&n.get_solar_day()));
+        if v1 != wp || v2 != wp || sd2 != civ.date(o2 as usize) {
+          stepped_to = civ.date(o2 as usize);
+          stepped = format!("next({}): sexagenary-day view {} / lunar-day pillar {} on {}; model {} on {}", dn, v1, v2, fmt_ymd(sd2), wp, fmt_ymd(civ.date(o2 as usize)));
+        }
+      }
+      (SixtyCycleDay::from_solar_day(sd).get_sixty_cycle().get_name(), sd.get_lunar_day().get_sixty_cycle_day().get_sixty_cycle().get_name(), ymd_of(&sd.get_sixty_cycle_day().get_solar_day()), stepped, stepped_to)
     });
     match r {
-      Ok((a, b, back, stepped)) => {
-        if stepped != want_p {
-          ctx.violation("pillar_route", format!("{} stepped", fmt_ymd(d)), format!("lunar day (views filled).next(-1) (view filled).next(1): sexagenary-day view / lunar-day pillar = {}; model {}", stepped, want_p), vec!["day".to_string(), d.0.to_string(), d.1.to_string(), d.2.to_string()]);
+      Ok((a, b, back, stepped, stepped_to)) => {
+        if !stepped.is_empty() {
+          // keyed by the start date when the start itself is already reported as wrong, else by the date reached
+          let key = if start_bad { format!("{} stepped", fmt_ymd(d)) } else { format!("{} reached from {}", fmt_ymd(stepped_to), fmt_ymd(d)) };
+          ctx.violation("pillar_route", key, format!("lunar day with filled views, {}", stepped), vec!["day".to_string(), d.0.to_string(), d.1.to_string(), d.2.to_string()]);
         }
         if a != want_p || b != want_p || back != d {
           ctx.violation("pillar_route", fmt_ymd(d), format!("SixtyCycleDay::from_solar_day = {}, LunarDay::get_sixty_cycle_day = {}, SixtyCycleDay::get_solar_day = {}; model {} on {}", a, b, fmt_ymd(back), want_p, fmt_ymd(d)), vec!["day".to_string(), d.0.to_string(), d.1.to_string(), d.2.to_string()]);
